@@ -105,13 +105,27 @@ def lock2_obsoleting(cfg):
     return r
 
 
+def keep_keys(rule, pred, what):
+    """only the findings of a rule whose sub-key satisfies pred are this property's business"""
+    def run(cfg, rule=rule):
+        r = rule['fn'](cfg)
+        kept = [x for x in r.findings if pred(x.key.split('|')[-1])]
+        if len(kept) != len(r.findings):
+            r.note('%d finding(s) of %s are not reported under this property (%s)' % (len(r.findings) - len(kept), r.rule, what))
+        r.findings = kept
+        return r
+    return R(run)
+
+
 def lw_parts(prefixes, what):
     """the lock-word premises that matter for one property: findings of the other LW sub-rules are that other property's business"""
     def run(cfg):
         r = lockword.lw(cfg)
-        kept = [x for x in r.findings if any(x.key.split('|')[-1].startswith(p_) for p_ in prefixes)]
+        def m_(k):
+            return any((k == p_[:-1]) if p_.endswith('|') else k.startswith(p_) for p_ in prefixes)
+        kept = [x for x in r.findings if m_(x.key.split('|')[-1])]
         if len(kept) != len(r.findings):
-            r.note('%d LW finding(s) outside %s are not reported under this property (%s)' % (len(r.findings) - len(kept), '/'.join(prefixes), what))
+            r.note('%d LW finding(s) outside %s are not reported under this property (%s)' % (len(r.findings) - len(kept), '/'.join(p_.rstrip('|')[:12] for p_ in prefixes)[:120], what))
         r.findings = kept
         return r
     return R(run)
@@ -258,11 +272,11 @@ PROPERTIES['C03'] = {
 PROPERTIES['C04'] = {
     'level': 'other',
     'configs': two,
-    'rules': [olc('LOCK-1'), olc('LOCK-5'), R(olcrules.lock6), R(olcrules.lock6b),
+    'rules': [keep_keys(olc('LOCK-1'), lambda k: k.startswith(('LOCK-1a', 'LOCK-1c')), 'a result returned without validation is a wrong answer - C03 / C09 - not a use of reclaimed memory'), olc('LOCK-5'), R(olcrules.lock6), R(olcrules.lock6b),
               R(qsbr.q_free_paths), R(qsbr.q_rotation), R(qsbr.q_barriers), R(lambda cfg: qsbr.q_orphans(cfg, parts=('7', '9'))), R(qsbr.q_tagging), R(qsbr.q_last_out), R(qsbr.q_register_epoch), R(qsbr.q_wrap), R(qstate.qs1),
               R(lambda cfg: qsbr.q_rotation(cfg, parts=('3',))), R(qsbr.q_cas), R(lambda cfg: qsbr.q_orphans(cfg, parts=('8',))), R(qsbr.q_tail_link), R(qsbr.q_sink), R(qsbr.q_list_rmw), R(acc.acc4), scoped(R(exc.exc1), _qsbr_roots, 'QSBR thread start / resume / deferred-deallocation request'), R(ptr.ptr3), R(point.lock11), olc_side(R(lambda cfg: nodes.mut1(cfg, parts=('reclaim',))))],
     'technique': 'static analysis: relational typestate dataflow (validate-before-dereference, obsolete-before-retire), who-may-construct rule for immediate-deleter owners; the QSBR who-may-free / ordering / control-dependence rules of C05',
-    'explanation': 'Structural safety conditions of "no use of reclaimed memory": LOCK-1 (no pointer obtained from a node is followed before the read section on that node is re-validated, so a stale pointer to a retired node is never dereferenced) '
+    'explanation': 'Structural safety conditions of "no use of reclaimed memory": LOCK-1, dereference part (no pointer obtained from a node is followed before the read section on that node is re-validated, so a stale pointer to a retired node is never dereferenced; the "no unvalidated result" part of LOCK-1 is C03 / C09) '
                    'and LOCK-5 (every node an OLC operation hands to reclamation was unlocked-and-obsoleted by it first, so readers still holding a section on it restart; checked at restart returns too - a node retired and then abandoned by a restart is still linked), on every path of every OLC function, both key kinds; '
                    'LOCK-6 (in the OLC instantiation an existing node is never wrapped in an owner with the immediate deleter outside the single-threaded teardown: ever-reachable nodes are freed only through QSBR); LOCK-6b (the reclaiming deleters hand exactly the node they were given, with its size, to on_next_epoch_deallocate and free nothing themselves). The second half of the property - what was retired is not freed before every reader that might hold it has quiesced - rests on the QSBR safety generators, which are therefore checked here too: Q-1,2,3,4,5,7,9,10,11,12,14,17, QS-1 (see C05); and the last clause - every unlinked node is freed exactly once - on the linearity rules of C06 (Q-3, Q-6, Q-8, Q-13, Q-15/16, Q-19) and on MUT-1 (reclaim part, OLC instantiation: the remove of every node class hands the unlinked leaf to the reclaiming deleter exactly once). Freed at all: ACC-4 clear() / destruction walk every child slot of every node class (48 resp. 256 slots for the sparse classes, not the child count), EXC-1 (QSBR functions) a thread registers only after the last fallible allocation of its start / resume - a phantom registration from a failed resume never quiesces, the epoch stalls and nothing retired afterwards is ever freed; Q-15b free_aligned is the last use of the pointer in qsbr::deallocate (the debug callback that inspects the node comes first). PTR-3 the span handed out by get() reproduces the data / size of the value view; LOCK-11 no definitive result after a failed lock step.',
     'decides': 'validate-before-dereference; obsolete-before-retire; deferred free only; the local generators of the two-epoch delay of QSBR',
@@ -284,7 +298,7 @@ PROPERTIES['C09'] = {
 PROPERTIES['C14'] = {
     'level': 'other',
     'configs': two,
-    'rules': [olc('LOCK-3'), olc('LOCK-4'), olc('LOCK-7'), R(lock7a), R(lockword.lw6), R(point.lock10), R(lock2_obsoleting), lw_parts(('LW-1', 'LW-2', 'LW-3', 'LW-7'), 'memory orders, whole-word comparison and section snapshots concern linearizability - C03 / C07 - not lock release or waiting')],
+    'rules': [olc('LOCK-3'), olc('LOCK-4'), olc('LOCK-7'), R(lock7a), keep_keys(R(lockword.lw6), lambda k: k.startswith('LW-6:upgrade'), 'a unit given back twice or never taken makes an assertion fire - C16 - but leaves no node read-locked'), R(point.lock10), R(lock2_obsoleting), lw_parts(('LW-1:dtor', 'LW-1:deactivate', 'LW-1:op', 'LW-1:store-value', 'LW-1:cas-desired', 'LW-1:caller:unodb::optimistic_lock::atomic_version_type::cas_acquire', 'LW-1:caller:unodb::optimistic_lock::try_upgrade', 'LW-1:caller:unodb::optimistic_lock::write_guard::try_lock_upgrade', 'LW-2', 'LW-3', 'LW-7:unlock|', 'LW-7:write_unlock|', 'LW-7:store:write_unlock|', 'LW-7:try_lock_upgrade', 'LW-7:try_upgrade'), 'memory orders, whole-word comparison, section snapshots and a missing obsoletion concern linearizability - C03 / C07 - not lock release or waiting')],
     'technique': 'static analysis: relational typestate dataflow for lock order / no-wait-while-locked / guard typestate on every CFG path incl. exceptional exits of scope guards; path-sensitive effect flow (obsoletion followed by a restart result)',
     'explanation': 'No-deadlock / no-lock-left-held conditions: LOCK-3 (write ownership is only taken by non-blocking upgrade in root-to-leaf order and no waiting primitive - try_read_lock spin, spin_wait_loop_body - is reached while a guard is active, '
                    'so no wait-for cycle can contain a writer and readers hold nothing), LOCK-4 (no operation on a guard that is not active: no double unlock / null dereference; guards are scope-bound RAII objects), LOCK-7b (sections are not validated after they ended), LOCK-7a / LW-6 (optimistic read locks are counted per node in assertion-enabled builds - the only sense in which a reader holds a node: no open section is overwritten by assignment, with per-return summaries of the helpers that end or keep the sections they are handed, and check / try_read_unlock / upgrade give the unit back on exactly the paths on which the section forgets its lock - so an operation that returns leaves no node read-locked, which would abort the later operation that frees that node), LOCK-10 (obsoletion is a point of no return: no path marks a node obsolete and then abandons the attempt with a restart result while the node is still linked - otherwise every later operation reaching that node restarts for ever although nobody holds a lock; path-sensitive effect flow with callee summaries), LOCK-2 restricted to functions that obsolete a node (the store that replaces / unlinks the obsoleted node in its parent is made under the active write guard of the parent: a store after the guard is gone can hit a slot that has moved, and the obsolete node stays linked); the lock-word premises of C07 that concern release and waiting - LW-1 (write ownership only through write_guard, which deactivates itself and unlocks exactly when active), LW-2 (is_free / is_write_locked / obsolete encodings: a wrong one makes try_read_lock wait for ever), LW-3 (the try_read_lock wait loop leaves on an obsolete word), LW-7 (unlock really unlocks, unlock_and_obsolete really obsoletes) - are reported here too: the anchors of this property include the lock; the memory-order, comparison and snapshot premises (LW-4, 5, 8, 9) are not.',
@@ -294,14 +308,14 @@ PROPERTIES['C14'] = {
 PROPERTIES['C16'] = {
     'level': 'other',
     'configs': two,
-    'rules': [R(lock7a), olc('LOCK-7'), olc('ROLE'), R(ptr.ptr4), R(ptr.ptr2), R(cfgdiff.assert_range), R(lockword.lw6)],
+    'rules': [R(lock7a), olc('LOCK-7'), olc('ROLE'), R(ptr.ptr2), R(cfgdiff.assert_range), R(lockword.lw6)],
     'technique': 'static analysis: configuration differencing (statement-signature alignment of every function across single-axis flips of the build configuration with an effect classifier), API-surface differencing, typestate dataflow for read-section overwrite',
     'multi_rules': [R(cfgdiff.run_matrix), R(simd_axis)],
     'exhaustive': lambda tier: tier == 'thorough',
     'explanation': 'CD-1: for every single-axis flip of the build configuration (statistics on/off, assertions on/off, spin variant; quick: the baseline against its flips, thorough: all 16 configurations against theirs, exhaustively) the statement signatures of every function instantiated in both configurations are aligned in source order; every statement that exists on one side only must be part of a side-effect-free assertion, '
                    'touch only state that exists only in that configuration (set difference of the field / static / function tables), be a pure read, or be control flow listed in the exception table (one symbol + reason each) - a return, throw, shared-state write or mutating call that exists in one configuration only is a violation. CD-2: the public API of the index classes, encoder/decoder and pointer wrappers is identical across configurations except statistics getters. '
                    'SIMD axis: the vectorised searches (SLOT-1 first null slot of the I48 pointer array - SSE4.2 packs vs AVX2 packs + cross-lane permutes; FIND-1 / ORD-1 child lookup and insert position of I4 / I16) are evaluated lane-wise against ONE specification in the AVX2 and in the SSE4.2 configuration; meeting it in both is what makes the builds agree. '
-                   'PTR-2 (assertion-enabled configurations): the per-thread registry of live qsbr_ptr values is exact - every member function that changes the wrapped address unregisters the old value before and registers the new one after, on every path - so the three rejection assertions (PTR-4) fire only when a wrapper is really alive: a stale registration makes the next legal quiescent state abort. LW-6 (assertion-enabled configurations): a read section clears its lock pointer on exactly the paths on which the lock-level call gave its read_lock_count unit back (check: on failure; try_read_unlock: always - conditions read off the lock code itself), so the unit is never given back twice. ASSERT-1 (assertion-enabled configurations): a debug-only counter compared with a narrower stored count cannot outgrow it (loop trip count capped by the node capacity <= 2^w - 1; a full I256 has 256 children and an 8-bit count). '
+                   'PTR-2 (assertion-enabled configurations): the per-thread registry of live qsbr_ptr values is exact - every member function that changes the wrapped address unregisters the old value before and registers the new one after, on every path - so the three rejection assertions fire only when a wrapper is really alive (that they exist at all is C17, PTR-4: a missing assertion does not make a legal run abort): a stale registration makes the next legal quiescent state abort. LW-6 (assertion-enabled configurations): a read section clears its lock pointer on exactly the paths on which the lock-level call gave its read_lock_count unit back (check: on failure; try_read_unlock: always - conditions read off the lock code itself), so the unit is never given back twice. ASSERT-1 (assertion-enabled configurations): a debug-only counter compared with a narrower stored count cannot outgrow it (loop trip count capped by the node capacity <= 2^w - 1; a full I256 has 256 children and an 8-bit count). '
                    'LOCK-7b / ROLE: a read section is not used after it has been ended or handed to a callee that consumes it, and helpers receive the section their node argument was read under - in release builds a consumed section still carries its lock pointer and the slip goes unnoticed, in assertion-enabled builds the pointer is null and the next use crashes: behaviour would depend on the configuration. '
                    'LOCK-7a: in no function of the OLC code is a read section that may still be open overwritten by assignment. An overwritten open section loses its unit of the debug-build read_lock_count, which optimistic_lock::check_on_dealloc '
                    'asserts to be zero when the node is freed - the one internal assertion that legal usage (scan, then remove) could trip.',
